@@ -398,6 +398,12 @@ class TextRenderer(BaseRenderer):
                 gate_text = (
                     gate.arg_label if gate.arg_label is not None else gate.name
                 )
+                if gate.targets is None and gate.controls is None:
+                    # a gate on the whole register (e.g. GLOBALPHASE):
+                    # a box over all the qubits
+                    gate = Gate(
+                        gate.name, targets=list(range(self._qwires))
+                    )
 
             # generate the parts, width and wire_list for the gates
             if isinstance(gate, Measurement):
